@@ -416,10 +416,18 @@ pub fn run(args: &Args, rec: &mut Recorder) {
         if case % 20 == 7 {
             // IF_DATA interpreted through the A2ML block of the file: every value must be written back
             // exactly (integers with their value, floats and doubles exactly, strings, enum words, tags)
+            // one document in three has literals beyond the f32 range at `float` members: they do not
+            // fit the field, the block is kept as uninterpreted data and the literal passes through
+            let huge = rng.chance(1, 3);
+            vcommon::a2mlgen::HUGE_FLOATS.with(|h| h.set(huge));
             let (text, flat, _n) = crate::c18::gen_conforming_document(rng);
+            vcommon::a2mlgen::HUGE_FLOATS.with(|h| h.set(false));
             rec.eval();
             rec.nontrivial(text.as_bytes());
             rec.bump("docs.a2ml_interpreted_if_data");
+            if huge && (text.contains("e38") || text.contains("E+38") || text.contains("e39") || text.contains("e300")) {
+                rec.bump("docs.a2ml_float_beyond_f32");
+            }
             match load_str(&text, false) {
                 Err((sig, detail)) => rec.violation(&sig, &detail, witness_text("G-a2ml", &text, "")),
                 Ok(Err(e)) => rec.violation(
